@@ -408,12 +408,108 @@ fn spec_extract(name: &str, pattern: &str) -> Option<String> {
     Some(name[pre.len()..name.len() - suf.len()].to_string())
 }
 
+/// Sibling rules as the user runs them: a small git history, `check` and `check --diff HEAD~1`.
+/// Which files miss a sibling is a fact about the directory, not about the change set: both runs
+/// must report exactly the files the documented rule singles out.
+fn e2e_diff_case(sink: &mut Sink, r: &mut Rng, bin: &str, scratch: &str) {
+    use std::process::Command;
+    if !sink.want() {
+        sink.skip();
+        return;
+    }
+    let dir = PathBuf::from(scratch).join(format!("g{}", sink.n));
+    let _ = std::fs::remove_dir_all(&dir);
+    std::fs::create_dir_all(dir.join("src")).unwrap();
+    let git = |args: &[&str]| {
+        let o = Command::new("git")
+            .args(["-c", "user.email=v@example.invalid", "-c", "user.name=v", "-c", "commit.gpgsign=false", "-c", "init.defaultBranch=main"])
+            .args(args)
+            .current_dir(&dir)
+            .env("GIT_CONFIG_GLOBAL", "/dev/null")
+            .env("GIT_CONFIG_SYSTEM", "/dev/null")
+            .output()
+            .expect("git");
+        o.status.success()
+    };
+    std::fs::write(dir.join(".sloc-guard.toml"), "version = \"2\"\n[scanner]\ngitignore = false\n[content]\nextensions = [\"rs\"]\nmax_lines = 1000\n[[structure.rules]]\nscope = \"src\"\nsiblings = [{ match = \"*.rs\", require = \"{stem}.md\" }, { group = [\"{stem}.a\", \"{stem}.b\"] }]\n").unwrap();
+    let mut files: Vec<String> = vec![];
+    let mut want: Vec<(String, String)> = vec![];
+    for stem in ["alpha", "beta", "gamma", "delta", "eps"] {
+        let has: Vec<bool> = (0..4).map(|_| r.chance(1, 2)).collect();
+        for (k, ext) in ["rs", "md", "a", "b"].iter().enumerate() {
+            if has[k] {
+                let f = format!("src/{stem}.{ext}");
+                std::fs::write(dir.join(&f), "x = 1;\n").unwrap();
+                files.push(f);
+            }
+        }
+        if has[0] && !has[1] {
+            want.push((format!("src/{stem}.rs"), "missing_sibling".into()));
+        }
+        if has[2] != has[3] {
+            want.push((format!("src/{stem}.{}", if has[2] { "a" } else { "b" }), "group_incomplete".into()));
+        }
+    }
+    want.sort();
+    let mut pred: Option<String> = None;
+    if files.is_empty() || !(git(&["init", "-q"]) && git(&["add", "-A"]) && git(&["commit", "-q", "-m", "one"])) {
+        let _ = std::fs::remove_dir_all(&dir);
+        sink.push(Case { request: "noop".into(), implementation: "-".into(), pred: "ok".into(), tag: "e2e-diff/empty".into() });
+        return;
+    }
+    // second commit: touch one or two files (possibly one member of a pair, possibly an unrelated one)
+    let touched: Vec<String> = (0..r.range(1, 2)).map(|_| r.pick(&files).clone()).collect();
+    for f in &touched {
+        std::fs::write(dir.join(f), "x = 1;\ny = 2;\n").unwrap();
+    }
+    if !(git(&["add", "-A"]) && git(&["commit", "-q", "-m", "two"])) {
+        pred = Some("could not build the git history".into());
+    }
+    let observe = |extra: &[&str]| -> Result<Vec<(String, String)>, String> {
+        let mut argv = vec!["check", "--no-sloc-cache", "--format", "json"];
+        argv.extend_from_slice(extra);
+        argv.push(".");
+        let o = Command::new(bin).args(&argv).current_dir(&dir).env("NO_COLOR", "1").output().expect("run sloc-guard");
+        let v: serde_json::Value = serde_json::from_slice(&o.stdout).map_err(|_| format!("`{}` printed no JSON (exit {:?}): {}", argv.join(" "), o.status.code(), String::from_utf8_lossy(&o.stderr).lines().next().unwrap_or("")))?;
+        let mut got = vec![];
+        for x in v.get("results").and_then(|a| a.as_array()).cloned().unwrap_or_default() {
+            let ty = x.get("violation_category").and_then(|c| c.get("violation_type")).and_then(|t| t.get("type")).and_then(|t| t.as_str()).unwrap_or("");
+            if ty == "missing_sibling" || ty == "group_incomplete" {
+                got.push((x.get("path").and_then(|p| p.as_str()).unwrap_or("").trim_start_matches("./").to_string(), ty.to_string()));
+            }
+        }
+        got.sort();
+        Ok(got)
+    };
+    for (label, extra) in [("check", vec![]), ("check --diff HEAD~1", vec!["--diff", "HEAD~1"])] {
+        if pred.is_some() {
+            break;
+        }
+        match observe(&extra) {
+            Err(e) => pred = Some(e),
+            Ok(got) => {
+                if got != want {
+                    pred = Some(format!("`{label}` reports sibling violations {got:?}; the rule singles out {want:?} (files {files:?}, changed in the last commit {touched:?})"));
+                }
+            }
+        }
+    }
+    let _ = std::fs::remove_dir_all(&dir);
+    sink.push(Case { request: "noop".into(), implementation: "-".into(), pred: pred.map_or_else(|| "ok".to_string(), |p| format!("FAIL {p}")), tag: format!("e2e-diff/{}", if want.is_empty() { "complete" } else { "missing" }) });
+}
+
 pub fn run(tier: Tier, seed: u64, out: &str) {
     let mut sink = Sink::create(out);
     let mut r = Rng::new(seed);
     let scratch = std::env::var("SGVERIF_SCRATCH").unwrap_or_else(|_| "/verif/.build/scratch/c07".to_string());
     for _ in 0..tier.scale(1_500, 60_000) {
         emit_tree(&mut sink, &mut r, &scratch);
+    }
+    if let Ok(bin) = std::env::var("SGVERIF_BIN") {
+        for _ in 0..tier.scale(25, 400) {
+            let mut rr = r.fork();
+            e2e_diff_case(&mut sink, &mut rr, &bin, &scratch);
+        }
     }
     sink.extra.insert("trivial_tag_prefixes".into(), serde_json::json!(["file/clean", "dir/clean"]));
     crate::globfact::flush(&mut sink);
